@@ -256,3 +256,25 @@ def scale(x: float) -> float:
     return x * 2.5
 '''),
 ]
+
+# structs passed by value: blob parameters of equal size and different alignment
+C_SNIPPETS.append(("by_value_structs", r'''
+struct P { int a, b; };
+struct Q { char c[8]; };
+struct R { short s[4]; };
+struct W { long long x; long long y; };
+struct V { int i[4]; };
+extern int ext_pq(struct Q q, struct P p);
+int usep(struct P p) { return p.a + p.b; }
+int useq(struct Q q) { return q.c[0] + q.c[7]; }
+int user(struct R r, struct W w, struct V v) { return r.s[1] + (int)w.y + v.i[3]; }
+int both(struct P p, struct Q q) { return usep(p) + useq(q); }
+int drive(int n) {
+  struct P p; struct Q q; struct R r; struct W w; struct V v; int i;
+  p.a = n; p.b = 2 * n;
+  for (i = 0; i < 8; i++) q.c[i] = i + n;
+  for (i = 0; i < 4; i++) { r.s[i] = i - n; v.i[i] = i * n; }
+  w.x = n; w.y = -n;
+  return both(p, q) + user(r, w, v);
+}
+'''))
